@@ -4,7 +4,7 @@ CONSTANTS
   NP = 2
   NS = 1
   NB = 2
-  MaxDepth = 5
+  MaxDepth = 4
   UseSystematic = FALSE
   Bug = "none"
   RandomPick = FALSE
